@@ -59,13 +59,22 @@ def evaluate(case):
         if case.get("_shrinking"):
             return []
         return [failure("generated-schema-rejected", case, repr(e))]
+    if case.get("optimise"):
+        import json
+        from zcv import digest, optprobe
+        got = loadcheck.real_load(schema, case["text"])
+        w = ("ok:" + json.dumps(digest.digest(got[1]), sort_keys=True, default=repr)) if got[0] == "ok" else got[0]
+        g = optprobe.verdicts([{"xml": _xml, "text": case["text"]}], "-O")[0]
+        return [] if g == w or got[0] == "internal" else [failure("outcome-under-python-O-differs:%s-vs-%s" % (g.split(":")[0], w.split(":")[0]), case, "")]
     _, _, fl = compare(ast, sm, schema, case["text"])
     return [failure(sig, case, d) for sig, d in fl]
 
 
 def shards(tier, seed):
     n = 12000 if tier == "thorough" else 1300
-    return [{"seed": seed, "lo": i * n, "hi": (i + 1) * n} for i in range(16)]
+    specs = [{"seed": seed, "lo": i * n, "hi": (i + 1) * n} for i in range(16)]
+    specs.append({"seed": seed, "lo": 0, "hi": 2000 if tier == "thorough" else 200, "optimise": True})
+    return specs
 
 
 def nontrivial_text(text, ref):
@@ -84,9 +93,43 @@ def nontrivial_text(text, ref):
     return ref.kind == "accept" or (ref.kind == "reject" and not ref.rule.startswith("syntax"))
 
 
+def run_optimised(spec, res):
+    """The same loads in an interpreter started with -O: verdict and value tree must not depend
+    on whether assert statements exist."""
+    import json
+    from zcv import digest, optprobe
+    jobs, want = [], []
+    for i in range(spec["lo"], spec["hi"]):
+        ast, sm, texts = loadcheck.gen_case(spec["seed"], i)
+        xml = gen.render_schema(ast)
+        try:
+            schema = loadcheck.load_schema_xml(xml)
+        except Exception:  # noqa
+            continue
+        for text in texts:
+            got = loadcheck.real_load(schema, text)
+            if got[0] == "ok":
+                w = "ok:" + json.dumps(digest.digest(got[1]), sort_keys=True, default=repr)
+            elif got[0] == "reject":
+                w = "reject"
+            else:
+                continue
+            jobs.append({"xml": xml, "text": text, "schema": ast})
+            want.append(w)
+    got = optprobe.verdicts([{"xml": j["xml"], "text": j["text"]} for j in jobs], "-O")
+    for job, w, g in zip(jobs, want, got):
+        res.evaluations += 1
+        if g != w:
+            res.fail("outcome-under-python-O-differs:%s-vs-%s" % (g.split(":")[0], w.split(":")[0]),
+                     {"schema": job["schema"], "text": job["text"], "optimise": True}, "with -O: %s ; without: %s" % (g[:150], w[:150]))
+    return res
+
+
 def run_shard(spec):
     res = Result()
     counters = collections.Counter()
+    if spec.get("optimise"):
+        return run_optimised(spec, res)
     for i in range(spec["lo"], spec["hi"]):
         ast, sm, texts = loadcheck.gen_case(spec["seed"], i)
         try:
